@@ -106,6 +106,15 @@ class Mon:
         rng = self.rng
         scen = self.scen
         ctxkey = CTXS[rng.randrange(len(CTXS))]
+        # an instruction whose OWN operation can raise an exception from its operands: the integer divides (ARMv7-R traps a
+        # zero divisor when SCTLR.DZ is set).  Half of their cases run where that can happen, most with a zero divisor.
+        from vf.ref import step as RS
+        row0 = RS.tables()[kind].match(word if setcond is None or kind != 'arm' else setcond(word, 14))
+        divide_m = None
+        if row0 is not None and row0.sem in ('sdiv', 'udiv'):
+            divide_m = (word & 0xF) if kind != 'arm' else (word >> 8) & 0xF
+            if rng.random() < 0.5:
+                ctxkey = ('v7-pmsa-r', 'off')
         ctx = self.ctx(ctxkey)
         ns = rng.randrange(2) if ctx.cfg['have_security_ext'] else 0
         mode = rng.choice(ctx.legal_modes(ns))
@@ -126,6 +135,20 @@ class Mon:
             if event_pending:
                 ctx.cpu.registers.event_register = True
                 d['event_register'] = True
+            if ctx.cfg.get('is_armv7r_profile') and r.random() < 0.5:
+                ctx.cpu.registers.sctlr.dz = 1                 # ARMv7-R: integer divide-by-zero trapping enabled
+                d['sctlr_dz'] = 1
+            if r.random() < 0.12:
+                # operands that make an instruction's OWN operation raise something (a zero divisor ...): whatever it is, it
+                # sits inside "if ConditionPassed()"
+                for n_ in range(13):
+                    if r.random() < 0.6:
+                        ctx.cpu.registers.set(n_, r.choice([0, 0, 0, 1, 0xFFFFFFFF, 0x80000000]))
+                d['regs'] = ['%#x' % ctx.cpu.registers.get(n_) for n_ in range(15)]
+            if divide_m is not None and divide_m < 13 and r.random() < 0.7:
+                ctx.cpu.registers.set(divide_m, 0)
+                d['regs'] = ['%#x' % ctx.cpu.registers.get(n_) for n_ in range(15)]
+                self.bump('divides_with_zero_divisor' + ('_and_trap_enabled' if d.get('sctlr_dz') else ''))
             pre = observe.snapshot(ctx.cpu)
             self.reads_at_code = 0
             k, sig = scen.step(ctx.cpu)
@@ -158,7 +181,7 @@ class Mon:
                     v2, ref2, info2 = RS.step(pre, ctx.cfg, force_cond=True)
                 except Exception:
                     v2, ref2 = 'error', None
-                if took_und and v2 == 'ok' and not ({'undef', 'hyptrap'} & set(ref2.events)):
+                if took_und and v2 == 'ok' and (not ({'undef', 'hyptrap'} & set(ref2.events)) or info2.get('undef_from_execution')):
                     self.bump('noop_judged')
                     self.report('C05|failed-cond-took-undefined|%s' % (info2.get('row') or '?'),
                                 dict(d, cond=cond, nzcv=nz, row=info2.get('row'), changed=sorted(ch)), dict(d, cond=cond, nzcv=nz))
